@@ -24,7 +24,7 @@ PROPS = {
     "C10": dict(level="exploration", sel=lambda c: True, cases=(25000, 120000), max_len=(60, 120)),
     "C11": dict(level="exploration", sel=lambda c: c.copyable, cases=(30000, 150000), max_len=(50, 100)),
     "C13": dict(level="exploration", sel=lambda c: c.twin != "", cases=(40000, 200000), max_len=(60, 120)),
-    "C14": dict(level="exploration", sel=lambda c: True, cases=(25000, 120000), max_len=(60, 120)),
+    "C14": dict(level="exploration", sel=lambda c: True, cases=(25000, 120000), max_len=(60, 120), modes=("", "long"), mode_cases={"long": (150, 1500)}),
     "C15": dict(level="exploration", sel=lambda c: True, cases=(25000, 120000), max_len=(60, 120)),
 }
 
@@ -62,6 +62,133 @@ def build(tier):
         C.log("built %s in %.0f s" % (exe, time.time() - t0))
     C.prune_builds("hist-" + tier)
     return exe, None
+
+
+FUZZ_CFGS = ["q1", "q2", "q3", "q4", "q5", "q9", "q11", "q13"]
+OPNAMES = None
+
+
+def build_fuzz():
+    """libFuzzer build of the interpreter (clang++), thorough tier only."""
+    grid = [c for c in configs.QUICK if c.name in FUZZ_CFGS]
+    srcs = [os.path.join(C.HARNESS, n) for n in ("core.hpp", "elem.hpp", "alloc.hpp", "iters.hpp", "program.hpp", "interp.hpp", "checker.hpp",
+                                                  "interp_base.inc", "interp_ops1.inc", "interp_ops2.inc", "interp_run.inc", "fuzz_hist.cpp")]
+    key = C.sha_files([C.HEADER] + srcs, "fuzz" + "|".join(c.source() for c in grid))
+    with C.BuildDir("fuzz", key) as bd:
+        exe = bd.file("fuzz_hist")
+        if bd.done("fuzz") and os.path.exists(exe):
+            os.utime(bd.path)
+            return exe, None
+        flags = ["-std=gnu++17", "-g", "-O1", "-fno-sanitize-recover=undefined"]
+        units, objs = [], []
+        for c in grid:
+            src = bd.file("cfg_%s.cpp" % c.name)
+            with open(src, "w") as f:
+                f.write(c.source())
+            obj = bd.file("cfg_%s.o" % c.name)
+            objs.append(obj)
+            units.append((["clang++"] + flags + ["-fsanitize=fuzzer-no-link,address,undefined", "-I", C.HARNESS, "-I", C.INCLUDE, "-c", src, "-o", obj], c.name))
+        mobj = bd.file("fuzz_hist.o")
+        units.append((["clang++"] + flags + ["-fsanitize=fuzzer-no-link,address,undefined", "-I", C.HARNESS, "-c", os.path.join(C.HARNESS, "fuzz_hist.cpp"), "-o", mobj], "main"))
+        bad = C.compile_many(units)
+        if bad:
+            return None, "fuzz harness failed to compile:\n" + bad[0][2][-2500:]
+        rc, out, err = C.run(["clang++", "-fsanitize=fuzzer,address,undefined", mobj] + objs + ["-o", exe], timeout=1800)
+        if rc != 0:
+            return None, "fuzz link failed:\n" + err[-2500:]
+        bd.mark("fuzz")
+    C.prune_builds("fuzz")
+    return exe, None
+
+
+def text_to_bytes(text, cfg_index):
+    """Encodes a replay-format program as fuzz input (cfg byte + 7 bytes per op)."""
+    global OPNAMES
+    out = bytearray([cfg_index & 0xff])
+    for line in text.splitlines():
+        if not line.startswith("op "):
+            continue
+        w = line.split()
+        kv = dict(x.split("=") for x in w[2:])
+        out += bytes([OPNAMES.index(w[1]), int(kv["t"]), int(kv["s"]), int(kv["a"]), int(kv["b"]), int(kv["c"]), int(kv["d"])])
+    return bytes(out)
+
+
+def fuzz_phase(prop, seed, seconds, procs, hist_exe, verdict, fault=False):
+    """Coverage-guided supplement: returns (violations, stats dict)."""
+    global OPNAMES
+    exe, err = build_fuzz()
+    if exe is None:
+        verdict.notes.append("libFuzzer supplement skipped: " + err[-300:])
+        return 0, dict(fuzz_execs=0, fuzz_note="build failed")
+    import re
+    with open(os.path.join(C.HARNESS, "program.hpp")) as f:
+        OPNAMES = re.findall(r"^\s*X \((\w+),", f.read(), re.M)
+    work = os.path.join(os.path.dirname(exe), "run-%s-%d" % (prop, os.getpid()))
+    os.makedirs(work, exist_ok=True)
+    # seed corpus from the rapidcheck generator
+    emit = os.path.join(work, "seed.txt")
+    C.run([hist_exe, "--prop", prop if prop in PROPS else "C01", "--cfg", "q1", "--seed", str(seed), "--cases", "300", "--max-len", "30", "--emit", emit], timeout=600)
+    texts = []
+    try:
+        with open(emit) as f:
+            texts = f.read().split("verif-replay 1\n")[1:]
+    except OSError:
+        pass
+    jobs = []
+    for i in range(procs):
+        cdir = os.path.join(work, "corpus%d" % i)
+        os.makedirs(cdir, exist_ok=True)
+        for k, t in enumerate(texts[i::procs][:40]):
+            with open(os.path.join(cdir, "seed%d" % k), "wb") as f:
+                f.write(text_to_bytes(t, (i + k) % len(FUZZ_CFGS)))
+        jobs.append((i, cdir))
+
+    def one(j):
+        i, cdir = j
+        env = dict(C.RUN_ENV, VERIF_FUZZ_PROP=prop, VERIF_FUZZ_OUT=work, VERIF_FUZZ_FAULT="1" if fault else "0")
+        return C.run([exe, cdir, "-seed=%d" % (seed * 100 + i + 1), "-max_total_time=%d" % seconds, "-max_len=600", "-timeout=60",
+                      "-artifact_prefix=%s/art%d-" % (work, i), "-print_final_stats=1", "-verbosity=0"], timeout=seconds + 600, env=env)
+
+    results = C.parallel(jobs, one)
+    execs = 0
+    for rc, out, err in results:
+        m = re.search(r"stat::number_of_executed_units:\s*(\d+)", out + err)
+        if m:
+            execs += int(m.group(1))
+    nviol = 0
+    for name in sorted(os.listdir(work)):
+        if name.startswith("fuzz-failure-") and name.endswith(".replay"):
+            src = os.path.join(work, name)
+            dest = os.path.join(C.REPLAYS_TMP, "%s-%s" % (prop, name))
+            shutil.copyfile(src, dest)
+            confirmed, last = replay_fails(hist_exe, dest, prop)
+            if not confirmed:
+                verdict.notes.append("libFuzzer failure %s did not reproduce 3/3 with the replay binary" % name)
+                continue
+            clause = ""
+            for l in last.splitlines():
+                if l.startswith("FAIL clause="):
+                    clause = l.split()[1].split("=", 1)[1]
+            k = C.match_known(prop, dict(clause=clause, final_op="", fault="", flavour="", cfg="", alloc=""))
+            if k:
+                verdict.known_finding(k["id"], k["what"])
+            else:
+                verdict.violation(dest, "libFuzzer: " + (last.strip().splitlines()[-1][:300] if last.strip() else clause))
+                nviol += 1
+    # crash-* artifacts without a replay file: sanitizer reports inside the library
+    arts = [n for n in os.listdir(work) if n.startswith("art") and "crash-" in n]
+    reps = [n for n in os.listdir(work) if n.startswith("fuzz-failure-")]
+    if arts and not reps:
+        dest = os.path.join(C.REPLAYS_TMP, "%s-fuzz-%s" % (prop, arts[0]))
+        shutil.copyfile(os.path.join(work, arts[0]), dest)
+        rc, out, err = C.run([exe, dest], timeout=300, env=dict(C.RUN_ENV, VERIF_FUZZ_PROP=prop, VERIF_FUZZ_FAULT="1" if fault else "0"))
+        if rc != 0:
+            first = [l for l in (out + err).splitlines() if "ERROR" in l or "runtime error" in l]
+            verdict.violation(dest, "libFuzzer crash artifact (re-run: %s %s): %s" % (exe, dest, first[0][:200] if first else ""))
+            nviol += 1
+    shutil.rmtree(work, ignore_errors=True)
+    return nviol, dict(fuzz_execs=execs, fuzz_processes=procs, fuzz_seconds=seconds)
 
 
 def replay_fails(exe, path, prop, times=3):
@@ -156,7 +283,7 @@ def run_check(prop, tier, verdict, extra_args=None):
                                  crash=os.path.join(outdir, tag + ".crash")))
 
     def one(j):
-        ncases = spec["fault_phase"][ti] if j["fault_phase"] else spec["cases"][ti]
+        ncases = spec["fault_phase"][ti] if j["fault_phase"] else spec.get("mode_cases", {}).get(j["mode"], spec["cases"])[ti]
         cmd = [exe, "--prop", prop, "--cfg", j["cfg"].name, "--seed", str(j["seed"]),
                "--cases", str(ncases), "--max-len", str(25 if j["fault_phase"] else spec["max_len"][ti]),
                "--out", j["stats"], "--fp-out", j["fp"], "--replay-out", j["replay"], "--crash-out", j["crash"]]
@@ -296,6 +423,11 @@ def run_check(prop, tier, verdict, extra_args=None):
                    fault_labels=fault_labels, final_operations=final_ops,
                    exhaustive_per_case="every eligible single fault point of the final operation is enumerated for each generated (prefix, operation)")
     shutil.rmtree(outdir, ignore_errors=True)
+    if tier == "thorough" and os.environ.get("VERIF_NO_FUZZ") != "1":
+        fv, fst = fuzz_phase(prop, seed, int(os.environ.get("VERIF_FUZZ_SECONDS", "150")), 8, exe, verdict, fault=bool(spec.get("fault")))
+        nviol += fv
+        cov.update(fst)
+        cov["evaluations"] += fst.get("fuzz_execs", 0)
     return nviol, dict(cov=cov, wall=time.time() - t0, seed=seed)
 
 
